@@ -721,7 +721,9 @@ func (r *coRunner) doSync(ctx context.Context, op coOp) {
 			r.fail("C13", "stale-sync-accepted", fmt.Sprintf("sync of %q generation %d answered NONE; generation in view %d (highest seen %d), member in view %v, removed earlier %v", id, gen, coGen(pre), r.genSeen, pre.member(id) != nil, r.fenced[id]))
 		}
 	}
-	r.checkOffsetsUnchanged("C13", "sync", offsBefore)
+	if !r.interleaved() {
+		r.checkOffsetsUnchanged("C13", "sync", offsBefore)
+	}
 	// ---- C14: once the leader has synced (Stable), every member's sync in that generation succeeds ----
 	if current && pre.phase == groupStateStable && resp.ErrorCode != protocol.NONE {
 		r.fail("C14", "sync-after-leader-sync-rejected", fmt.Sprintf("sync of current member %s in Stable generation %d answered %d", id, gen, resp.ErrorCode))
@@ -898,7 +900,9 @@ func (r *coRunner) doHeartbeat(ctx context.Context, op coOp) {
 			r.tags["hb-during-rebalance"] = true
 		}
 	}
-	r.checkOffsetsUnchanged("C13", "heartbeat", offsBefore)
+	if !r.interleaved() {
+		r.checkOffsetsUnchanged("C13", "heartbeat", offsBefore)
+	}
 	if r.kw != nil && r.kw.member(id) != nil && r.kw.gen == gen {
 		r.tags["after-failover-hb"] = true
 		if resp.ErrorCode != protocol.NONE {
@@ -1179,20 +1183,28 @@ func coRun(t *testing.T, cs coCase, next func(r *coRunner, i int) (coOp, bool)) 
 				if !ok {
 					break
 				}
-				if op.K == "commit" {
-					k := [2]int{op.T % len(coTopicNames), int(op.P)}
-					found := false
-					for _, kk := range r.keys {
-						found = found || kk == k
-					}
-					if !found {
-						// a new probe key: earlier observations of it are 0 (never committed)
-						r.keys = append(r.keys, k)
-						for j := range r.steps {
-							r.steps[j].offs = append(r.steps[j].offs, 0)
+				// probe keys of this operation's commits (also those in its window): a new
+				// key's earlier observations are 0 (never committed)
+				var reg func(o coOp)
+				reg = func(o coOp) {
+					if o.K == "commit" {
+						k := [2]int{o.T % len(coTopicNames), int(o.P)}
+						found := false
+						for _, kk := range r.keys {
+							found = found || kk == k
+						}
+						if !found {
+							r.keys = append(r.keys, k)
+							for j := range r.steps {
+								r.steps[j].offs = append(r.steps[j].offs, 0)
+							}
 						}
 					}
+					for _, in := range o.Inner {
+						reg(in)
+					}
 				}
+				reg(op)
 				r.cs.Ops = append(r.cs.Ops, op)
 				r.exec(op)
 			}
